@@ -39,7 +39,7 @@ impl Case {
     fn with(&self, lim: Option<usize>) -> Case { let mut c = self.clone(); c.lim = lim; c }
 }
 
-const BUDGET: u64 = 4000;
+const BUDGET: u64 = 1200;
 const HUGE: usize = 1 << 40;
 
 /// One run on the real code.  text = observation in comb.rs format; outcome = what pest::state returned.
@@ -460,6 +460,13 @@ fn wp_case() -> Case {
     Case { lim: None, det: false, input: "a".into(), env: vec![], prog: then(Opt(bx(Opt(bx(PushLit("a".into()))))), Pop) }
 }
 
+/// a loop that only the limited parse has (excluded by the fuel hypothesis of the theorem): closure trees only
+fn wd_case() -> Case {
+    use Prog::*;
+    Case { lim: None, det: false, input: "aab".into(), env: vec![],
+           prog: Rep(bx(orelse(Seq(bx(then(PushLit("q".into()), Str("a".into())))), MPeek))) }
+}
+
 fn small_progs() -> Vec<Prog> {
     use Prog::*;
     let s = |x: &str| Str(x.to_string());
@@ -520,6 +527,7 @@ fn main() {
             sweep(&w_case(), None, &mut out);
             if let Some(g) = compile(W_GRAMMAR) { let c = Case { lim: None, det: false, input: "xxxx".into(), env: g.env.clone(), prog: g.start.clone() }; sweep(&c, Some(&g), &mut out); }
             sweep(&wp_case(), None, &mut out);
+            sweep(&wd_case(), None, &mut out);
             if let Some(g) = compile(WP_GRAMMAR) { let c = Case { lim: None, det: false, input: "aa".into(), env: g.env.clone(), prog: g.start.clone() }; sweep(&c, Some(&g), &mut out); }
         }
         // replay one case (its lim= field is ignored: the whole sweep is redone); optional grammar text as 3rd argument
